@@ -143,6 +143,11 @@ def const_of_operand(fd, op, depth=0):
     ins = ds[0].instr
     if ins.rv_kind() in ("use", "cast") and ins.ops:
         return const_of_operand(fd, ins.ops[0], depth + 1)
+    if ins.rv_kind() == "ref":
+        p = ins.ref_place()
+        if all(x["k"] == "deref" for x in p.proj):
+            from .facts import Operand
+            return const_of_operand(fd, Operand({"k": "copy", "pl": {"l": p.local, "p": []}}), depth + 1)
     return None
 
 
@@ -195,3 +200,72 @@ def direct_def_instr(fd, op, depth=0):
         r = direct_def_instr(fd, d.instr.ops[0], depth + 1)
         return r if r is not None else d.instr
     return d.instr
+
+
+def has_method(atoms, decl):
+    """a call whose resolved callee or trait declaration is `decl`"""
+    return ("call:%s" % decl) in atoms or ("decl:%s" % decl) in atoms
+
+
+def aggregate_fields(ctx, rid, key, adt, table, rule="T1", must_exist=True, families=True):
+    """field provenance of every Aggregate of `adt` built in `key` (and its closures):
+    table maps field name -> list of required atoms in the operand's pure data slice"""
+    short = adt.split("::")[-1]
+    found = 0
+    keys = ctx.prog.family(key) if families else [key]
+    for k in keys:
+        fd = ctx.fd(k)
+        if fd is None:
+            continue
+        for ins in fd.body.instrs():
+            if ins.kind == "assign" and ins.rv_kind() == "agg" and ins.rv.get("adt") == adt:
+                found += 1
+                for name, op in zip(ins.rv["fields"], ins.ops):
+                    if name not in table:
+                        continue
+                    o = ctx.ob("%s.%s.%s" % (rid, short, name), rule, k, "%s.%s is filled from %s" % (
+                        short, name, ", ".join(a.split("::")[-1] for a in table[name])))
+                    o.loc = ins.line()
+                    at = fd.slice_operand_pure(ins, op)["atoms"]
+                    miss = [r for r in table[name] if not (r in at or (r.startswith("call:") and ("decl:" + r[5:]) in at))]
+                    ctx.decide(o, not miss, "", "%s.%s built in %s does not derive from %s" % (
+                        short, name, k.split("::")[-1], fmt_missing(miss)), loc=ins.line())
+    if must_exist and not found:
+        o = ctx.ob("%s.%s.site" % (rid, short), "T8", key, "construction of %s is found in %s" % (short, key.split("::")[-1]))
+        if ctx.prog.bodies.get(key) is None:
+            o.status = "anchor-missing"
+            o.detail = "function %s not found" % key
+        else:
+            ctx.bad(o, "no %s is constructed in %s" % (short, key))
+    return found
+
+
+def controlling_sources(fd, ins):
+    """for every switch the instruction is (transitively) control dependent on: the call whose result is switched on
+    (through discriminant reads, copies and negations), or a description of the condition"""
+    out = []
+    ctrl = fd.slice(seed_blocks=[ins.bb])
+    for sw in ctrl["switches"]:
+        op = sw.ops[0]
+        d = direct_def_instr(fd, op)
+        guard = 0
+        while d is not None and d.kind == "assign" and guard < 8:
+            guard += 1
+            if d.rv_kind() == "unop" and d.ops:
+                d = direct_def_instr(fd, d.ops[0])
+            elif d.rv_kind() == "discr":
+                p = d.discr_place()
+                ds = [x for x in fd.defs.get(p.local, ()) if x.kind != "param"]
+                d = ds[0].instr if len(ds) == 1 else None
+            elif d.rv_kind() == "use" and d.ops and d.ops[0].place is not None:
+                nd = direct_def_instr(fd, d.ops[0])
+                if nd is None or nd is d:
+                    break
+                d = nd
+            else:
+                break
+        if d is not None and d.kind == "call":
+            out.append((sw, d.callee, d))
+        else:
+            out.append((sw, None, d))
+    return out
